@@ -177,4 +177,102 @@ theorem node_slot_any_order {e : Epoch} (hpos : 0 < e.total) {hi s h : Nat} {p :
   obtain ⟨x, hx, hxh⟩ := hst.2.cNotarSome hqL1
   exact ⟨a, x, ps.slot, by rw [hst.2.cFin]; exact hqL2, hx, hxh⟩
 
+/-! ### the highest finalized slot a Votor knows never decreases -/
+
+theorem emitAll_hfcs : ∀ (l : List Votor.Out) (v : Votor.V), (v.emitAll l).hfcs = v.hfcs := by
+  intro l
+  induction l with
+  | nil => intro v; rfl
+  | cons o rest ih => intro v; unfold Votor.V.emitAll; rw [ih]; rfl
+
+theorem handle_hfcs_mono (v : Votor.V) (e : Votor.Event) : v.hfcs ≤ (v.handle e).hfcs := by
+  cases e with
+  | parentReady s a b => simp [Votor.V.handle]
+  | safeToNotar s h => simp [Votor.V.handle]
+  | safeToSkip s => simp [Votor.V.handle]
+  | cert k s h =>
+    cases k with
+    | notar => simp [Votor.V.handle]
+    | notarFallback => simp [Votor.V.handle]
+    | skip => simp [Votor.V.handle]
+    | fastFinal =>
+      show v.hfcs ≤ max (v.setTimeouts (Votor.firstInWindow s)).hfcs s
+      rw [Votor.setTimeouts_hfcs]; exact Nat.le_max_left _ _
+    | final =>
+      show v.hfcs ≤ max (v.setTimeouts (Votor.firstInWindow s)).hfcs s
+      rw [Votor.setTimeouts_hfcs]; exact Nat.le_max_left _ _
+  | standstill s r => simp [Votor.V.handle, emitAll_hfcs]
+  | firstShred s => simp [Votor.V.handle]
+  | invalidBlock s => simp [Votor.V.handle]
+  | block s b =>
+    simp only [Votor.V.handle]
+    split
+    · exact Nat.le_refl _
+    · split <;> simp
+  | timeout s =>
+    simp only [Votor.V.handle]
+    split <;> simp
+  | timeoutCrashed s =>
+    simp only [Votor.V.handle]
+    split <;> simp
+
+theorem step_hfcs_mono (v : Votor.V) (e : Votor.Event) : v.hfcs ≤ (Votor.step v e).hfcs := by
+  unfold Votor.step
+  split
+  · exact Nat.le_refl _
+  · dsimp only
+    split
+    · exact Nat.le_refl _
+    · exact handle_hfcs_mono (v.logEv e) e
+
+theorem votorStep_hfcs_mono (n : Node) (ve : Votor.Event) : n.votor.hfcs ≤ (votorStep n ve).1.votor.hfcs := by
+  unfold votorStep
+  split
+  · exact Nat.le_refl _
+  · exact step_hfcs_mono _ _
+
+theorem nodeStep_hfcs_mono (n : Node) (op : NodeOp) : n.votor.hfcs ≤ (nodeStep n op).votor.hfcs := by
+  cases op with
+  | recvVote v =>
+    simp only [nodeStep, recvVote]
+    split
+    · exact Nat.le_refl _
+    · unfold enqueue; split <;> exact Nat.le_refl _
+  | recvCert x =>
+    simp only [nodeStep, recvCert]
+    split
+    · exact Nat.le_refl _
+    · unfold enqueue; split <;> exact Nat.le_refl _
+  | poolBlock b p =>
+    simp only [nodeStep, poolBlock]
+    split
+    · exact Nat.le_refl _
+    · unfold enqueue; split <;> exact Nat.le_refl _
+  | pump =>
+    simp only [nodeStep, pump]
+    split
+    · exact Nat.le_refl _
+    · rename_i ev rest hq
+      split
+      · rename_i ve hve
+        exact votorStep_hfcs_mono { n with queue := rest } ve
+      · exact Nat.le_refl _
+  | votorBlock sl b => exact votorStep_hfcs_mono _ _
+  | firstShred sl => exact votorStep_hfcs_mono _ _
+  | invalidBlock sl => exact votorStep_hfcs_mono _ _
+  | timeout sl => exact votorStep_hfcs_mono _ _
+  | timeoutCrashed sl => exact votorStep_hfcs_mono _ _
+
+/-- in **every** run (valid or not, any events at any nodes) the highest finalized slot known to a node's Votor never
+    decreases -/
+theorem run_hfcs_mono (st : State) (evs : List Ev) (i : Nat) : (st i).votor.hfcs ≤ (run st evs i).votor.hfcs := by
+  induction evs generalizing st with
+  | nil => exact Nat.le_refl _
+  | cons ev evs ih =>
+    obtain ⟨k, op⟩ := ev
+    refine Nat.le_trans ?_ (ih (step st (k, op)))
+    by_cases hk : i = k
+    · subst hk; rw [step_self]; exact nodeStep_hfcs_mono _ _
+    · rw [step_other _ _ _ _ hk]
+
 end AgModel.Cluster
